@@ -12,7 +12,7 @@ Requests
 
 `<hier>` = `(<node>*)`, `<node>` = `(<path> <comp>)`, `<path>` = `(tok*)` (component names from the top,
 a list element `d[1]` is one token);
-`<comp>` = `ph ((name kind)*) ((mport kind)*) (<blk>*) ((a b)*) (<vc>*) (<vc>*) ((<mref> <mref> eq)*)
+`<comp>` = `ph ((name kind)*) ((mport kind)*) (<blk>*) ((<ref> <ref>)*) (<vc>*) (<vc>*) ((<mref> <mref> eq)*)
             ((<ref> <ref>)*) ((<ref> val)*)` = placeholder flag, sigs, mports, blks, uu, rdu, wru, mcs, conns, consts;
 `<blk>` = `(name kind (<ref>*) (<ref>*) (<ref>*))` kind 0 update / 1 update_ff / 2 update_once, reads writes calls;
 `<ref>` = `(<path> name)` relative to the component; `<vc>` = `(<ref> lt blk)`; `<mref>` = `(u blk)` | `(m <ref>)`.
@@ -72,7 +72,7 @@ def const? : Sexp → Option (Ref × String)
 def comp? : Sexp → Option Comp
   | .list [ph, sg, mp, bl, uu, rd, wr, mc, cn, cs] => do
       some { ph := ← ph.bool?, sigs := ← (← sg.list?).mapM pair?, mports := ← (← mp.list?).mapM pair?,
-             blks := ← (← bl.list?).mapM blk?, uu := ← (← uu.list?).mapM pair?,
+             blks := ← (← bl.list?).mapM blk?, uu := ← (← uu.list?).mapM conn?,
              rdu := ← (← rd.list?).mapM vc?, wru := ← (← wr.list?).mapM vc?,
              mcs := ← (← mc.list?).mapM mc?, conns := ← (← cn.list?).mapM conn?,
              consts := ← (← cs.list?).mapM const? }
